@@ -287,7 +287,17 @@ func TestC12(t *testing.T) {
 			}
 			c.stop()
 		}
-		// ---- the group channel closes when the underlying client's does
+		// ---- the group channel closes when the underlying client's does - also when events are still unread at that
+		// moment (a: one event, held by the forwarder; b: three, one held and the others waiting behind it)
+		unread := func(c *groupClient, n int) {
+			for i := 0; i < n; i++ {
+				c.arrive(&cemi.LDataInd{LData: cemi.LData{Control1: 0xbc, Control2: 0xe0, Source: sentinel.Source, Destination: uint16(sentinel.Destination),
+					Data: &cemi.AppData{Command: cemi.GroupValueWrite, Data: sentinel.Data}}})
+			}
+		}
+		unread(a, 1)
+		unread(b, 3)
+		time.Sleep(30 * time.Millisecond)
 		a.stop()
 		b.stop()
 		for _, c := range []*groupClient{a, b} {
